@@ -215,68 +215,326 @@ theorem C08_cycle_idle (s : S) (hflag : s.sharesChanged = false) : (step s .cycl
 `_management_job` snapshots and clears `_management_flags` in the step in which it wakes up, so the
 model's `.cycle` is that step together with `manage_shares_changed`; the rest of the job changes
 nothing that is modelled. A change that arrives while a job is still suspended in one of its awaits
-is therefore simply an op after that `.cycle` — and it sets the flag again. -/
+is therefore simply an op after that `.cycle` — and it sets the flag again.
 
-/-- **The shares-changed flag is set by every op that changes anything entitlement depends on, and
-only a cycle clears it.** -/
-theorem C08_change_requests_cycle (s : S) (op : Op) (hop : op ≠ .cycle)
-    (h : s.sharesChanged = true ∨ entitlementInputs (step s op).1 ≠ entitlementInputs s) :
+The ways a change reaches the managers, as ops: the shares API (`share` / `unshare` / `setMode`),
+the settings followed by `load_from_settings()` (`reload`: entries dropped, added, their mode /
+users list changed — whether the lists were assigned or mutated in place is a matter of Python object
+identity the model does not have: it transcribes the code, which announces every entry and every
+dropped directory unconditionally), a scan (`scanAll`), and the two polled settings
+`settings.users.friends` / `.blocked` (`mutFriends` / `mutBlocked`: effective at once for the lock
+checks, announced by the user manager's next `poll`; `setFriends` / `setBlocked` = both at once).
+
+The hypothesis `WF s` (the configured directories are the shared ones, the index is well-formed)
+holds in every reachable state: `Entitle.wf_init`, `Entitle.wf_step`, `Entitle.wf_run`. -/
+
+/-- **The shares-changed flag is set by every op that changes anything entitlement depends on as far
+as it has been announced** — the shared directories (alias, mode, users), the indexed items, and the
+friends / block list as the user manager last saw them — **and only a cycle clears it.** -/
+theorem C08_change_requests_cycle (s : S) (hwf : WF s) (op : Op) (hop : op ≠ .cycle)
+    (h : s.sharesChanged = true ∨ announcedInputs (step s op).1 ≠ announcedInputs s) :
     (step s op).1.sharesChanged = true := by
+  rcases h with h | h
+  · exact flag_persists s op hop h
   cases op with
   | cycle => exact absurd rfl hop
   | setFriends l => rfl
   | setBlocked l => rfl
+  | scanAll disk => rfl
   | share d disk =>
     simp only [step] at h ⊢
     split
     · rfl
-    · simp only at h
-      rcases h with h | h
-      · exact h
-      · exact absurd rfl h
+    · simp only at h; exact absurd rfl h
   | unshare p =>
     simp only [step] at h ⊢
     split
     · rfl
-    · simp only at h
-      rcases h with h | h
-      · exact h
-      · exact absurd rfl h
+    · simp only at h; exact absurd rfl h
   | setMode p m =>
     simp only [step] at h ⊢
     split
     · rfl
     · rename_i hr
       simp only [hr, if_false] at h
-      rcases h with h | h
-      · exact h
-      · exact absurd rfl h
-  | phrases l => rcases h with h | h; exact h; exact absurd rfl h
-  | search u q => rcases h with h | h; exact h; exact absurd rfl h
-  | sharesReq u => rcases h with h | h; exact h; exact absurd rfl h
-  | dirReq u req => rcases h with h | h; exact h; exact absurd rfl h
-  | queueReq u p => rcases h with h | h; exact h; exact absurd rfl h
-  | xferReq u p => rcases h with h | h; exact h; exact absurd rfl h
-  | meth k m => rcases h with h | h; exact h; exact absurd rfl h
-  | userAbort k => rcases h with h | h; exact h; exact absurd rfl h
-  | userQueue k => rcases h with h | h; exact h; exact absurd rfl h
+      exact absurd rfl h
+  | poll =>
+    simp only [step] at h ⊢
+    split
+    · rfl
+    · rename_i hr
+      simp only [hr] at h
+      exact absurd rfl h
+  | reload es disk =>
+    simp only [step] at h ⊢
+    split
+    · rename_i hr
+      simp only [hr] at h
+      exact absurd rfl h
+    · rename_i hr
+      simp only [hr, if_false] at h
+      cases ha : (!es.isEmpty || !(droppedBy s.sh (es.map (·.path))).isEmpty) with
+      | true => simp
+      | false =>
+        exfalso
+        obtain ⟨h1, h2, h3⟩ := reload_silent s hwf es ha
+        subst h1
+        apply h
+        simp [announcedInputs, h2, h3, reloadSh]
+  | mutFriends l => exact absurd rfl h
+  | mutBlocked l => exact absurd rfl h
+  | phrases l => exact absurd rfl h
+  | search u q => exact absurd rfl h
+  | sharesReq u => exact absurd rfl h
+  | dirReq u req => exact absurd rfl h
+  | queueReq u p => exact absurd rfl h
+  | xferReq u p => exact absurd rfl h
+  | meth k m => exact absurd rfl h
+  | userAbort k => exact absurd rfl h
+  | userQueue k => exact absurd rfl h
 
-/-- **No change is lost**: after an op that changed anything entitlement depends on, whatever
-follows that is not a cycle (requests, further changes — also those raised while an earlier cycle's
-job is still suspended), the flag is set when the next cycle starts; `C08_reconcile` then applies to
-that cycle, against the configuration as it is at that moment. -/
-theorem C08_change_seen_by_next_cycle (s : S) (op : Op) (mid : List Op) (hop : op ≠ .cycle)
+/-- **No announced change is lost**: after an op that changed anything entitlement depends on (as
+announced), whatever follows that is not a cycle (requests, further changes — also those raised
+while an earlier cycle's job is still suspended), the flag is set when the next cycle starts;
+`C08_reconcile` then applies to that cycle, against the configuration as it is at that moment. -/
+theorem C08_change_seen_by_next_cycle (s : S) (hwf : WF s) (op : Op) (mid : List Op) (hop : op ≠ .cycle)
     (hmid : ∀ o ∈ mid, o ≠ .cycle)
-    (h : entitlementInputs (step s op).1 ≠ entitlementInputs s) :
+    (h : announcedInputs (step s op).1 ≠ announcedInputs s) :
     (run (step s op).1 mid).sharesChanged = true := by
-  have h0 := C08_change_requests_cycle s op hop (Or.inr h)
+  have h0 := C08_change_requests_cycle s hwf op hop (Or.inr h)
   generalize (step s op).1 = s' at h0
   induction mid generalizing s' with
   | nil => exact h0
   | cons o mid ih =>
     simp only [run, List.foldl_cons]
-    exact ih (fun o' ho' => hmid o' (by simp [ho'])) _
-      (C08_change_requests_cycle s' o (hmid o (by simp)) (Or.inl h0))
+    exact ih (fun o' ho' => hmid o' (by simp [ho'])) _ (flag_persists s' o (hmid o (by simp)) h0)
+
+/-- **The poll announces**: one run of the user manager's polling job leaves its copies equal to the
+two settings, touches neither the configuration nor the uploads, and — whenever a setting differed
+from its copy, or a change was announced already — the shares-changed flag is set afterwards. So a
+friends / block list that differs from what was announced at a polling instant is announced at that
+instant (`C08_change_requests_cycle` sees `announcedInputs` change). -/
+theorem C08_poll_announces (s : S) :
+    (step s .poll).1.seenFriends = s.cfg.friends ∧ (step s .poll).1.seenBlocked = s.cfg.blocked ∧
+    (step s .poll).1.cfg = s.cfg ∧ (step s .poll).1.sh = s.sh ∧ (step s .poll).1.xs = s.xs ∧
+    (pending s = true → (step s .poll).1.sharesChanged = true) := by
+  simp only [step]
+  split
+  · exact ⟨rfl, rfl, rfl, rfl, rfl, fun _ => rfl⟩
+  · rename_i hr
+    simp only [Bool.or_eq_true, bne_iff_ne, ne_eq, not_or, Decidable.not_not] at hr
+    refine ⟨hr.1, hr.2, rfl, rfl, rfl, ?_⟩
+    intro hp
+    simp only [pending, Bool.or_eq_true, bne_iff_ne, ne_eq] at hp
+    rcases hp with (hp | hp) | hp
+    · exact hp
+    · exact absurd hr.1.symm hp
+    · exact absurd hr.2.symm hp
+
+/-! ### The settings themselves (not what was announced of them)
+
+Full statement — FALSE for the code as it is (known finding
+`C08-settings-flip-within-poll-interval`, `C08_flip_between_polls_counterexample`):
+
+    theorem C08_settings_change_pending (s : S) (hwf : WF s) (op : Op) (hop : op ≠ .cycle)
+        (h : pending s = true ∨ entitlementInputs (step s op).1 ≠ entitlementInputs s) :
+        pending (step s op).1 = true
+
+The friends / block list are *polled*: a list that is changed and changed back to the value of the
+last poll within one polling interval (1 s) is never announced, although requests were admitted and
+cycles may have reconciled against the transient value. Proved: the statement for every op that is
+not such a flip-back (`flipsBack`, a decidable predicate of the state and the op). -/
+
+/-- A pending change stays pending under every op that is neither a cycle nor a flip-back. -/
+theorem C08_pending_persists (s : S) (op : Op) (hop : op ≠ .cycle) (hnf : flipsBack s op = false)
+    (h : pending s = true) : pending (step s op).1 = true := by
+  by_cases hf : s.sharesChanged = true
+  · simp [pending, flag_persists s op hop hf]
+  · have hf' : s.sharesChanged = false := by simpa using hf
+    cases op with
+    | cycle => exact absurd rfl hop
+    | setFriends l => simp [pending, step]
+    | setBlocked l => simp [pending, step]
+    | scanAll disk => simp [pending, step]
+    | share d disk => simp only [step]; split <;> first | (simp [pending]; done) | exact h
+    | unshare p => simp only [step]; split <;> first | (simp [pending]; done) | exact h
+    | setMode p m => simp only [step]; split <;> first | (simp [pending]; done) | exact h
+    | poll => simp only [step]; split <;> first | (simp [pending]; done) | exact h
+    | reload es disk =>
+      simp only [step]
+      split
+      · exact h
+      · simp only [pending, hf', Bool.false_or, Bool.or_eq_true, bne_iff_ne, ne_eq] at h ⊢
+        rcases h with h | h
+        · exact Or.inl (Or.inr h)
+        · exact Or.inr h
+    | mutFriends l =>
+      simp only [pending, hf', Bool.false_or, Bool.or_eq_true, bne_iff_ne, ne_eq] at h
+      simp only [pending, step, hf', Bool.false_or, Bool.or_eq_true, bne_iff_ne, ne_eq]
+      by_cases hb : s.cfg.blocked = s.seenBlocked
+      · by_cases hl : l = s.seenFriends
+        · exfalso
+          rcases h with h | h
+          · subst hl
+            simp [flipsBack, hf', hb, h] at hnf
+          · exact h hb
+        · exact Or.inl hl
+      · exact Or.inr hb
+    | mutBlocked l =>
+      simp only [pending, hf', Bool.false_or, Bool.or_eq_true, bne_iff_ne, ne_eq] at h
+      simp only [pending, step, hf', Bool.false_or, Bool.or_eq_true, bne_iff_ne, ne_eq]
+      by_cases hb : s.cfg.friends = s.seenFriends
+      · by_cases hl : l = s.seenBlocked
+        · exfalso
+          rcases h with h | h
+          · exact h hb
+          · subst hl
+            simp [flipsBack, hf', hb, h] at hnf
+        · exact Or.inr hl
+      · exact Or.inl hb
+    | phrases l => exact h
+    | search u q => exact h
+    | sharesReq u => exact h
+    | dirReq u req => exact h
+    | queueReq u p => exact h
+    | xferReq u p => exact h
+    | meth k m => exact h
+    | userAbort k => exact h
+    | userQueue k => exact h
+
+/-- **Every op that changes anything entitlement depends on — in the settings themselves — leaves a
+change pending** (the flag is set, or the next poll will set it), unless it is a flip-back. -/
+theorem C08_settings_change_pending_partial (s : S) (hwf : WF s) (op : Op) (hop : op ≠ .cycle)
+    (hnf : flipsBack s op = false)
+    (h : pending s = true ∨ entitlementInputs (step s op).1 ≠ entitlementInputs s) :
+    pending (step s op).1 = true := by
+  rcases h with h | h
+  · exact C08_pending_persists s op hop hnf h
+  cases op with
+  | mutFriends l =>
+    have hne : s.cfg.friends ≠ l := by
+      intro he
+      apply h
+      simp [entitlementInputs, step, he]
+    by_cases hp : pending s = true
+    · exact C08_pending_persists s _ hop hnf hp
+    · simp only [pending, Bool.or_eq_true, bne_iff_ne, ne_eq, not_or, Decidable.not_not, Bool.not_eq_true] at hp
+      obtain ⟨⟨hf, hfr⟩, hbl⟩ := hp
+      simp only [pending, step, hf, Bool.false_or, Bool.or_eq_true, bne_iff_ne, ne_eq]
+      left
+      intro hl
+      exact hne (hfr.trans hl.symm)
+  | mutBlocked l =>
+    have hne : s.cfg.blocked ≠ l := by
+      intro he
+      apply h
+      simp [entitlementInputs, step, he]
+    by_cases hp : pending s = true
+    · exact C08_pending_persists s _ hop hnf hp
+    · simp only [pending, Bool.or_eq_true, bne_iff_ne, ne_eq, not_or, Decidable.not_not, Bool.not_eq_true] at hp
+      obtain ⟨⟨hf, hfr⟩, hbl⟩ := hp
+      simp only [pending, step, hf, Bool.false_or, Bool.or_eq_true, bne_iff_ne, ne_eq]
+      right
+      intro hl
+      exact hne (hbl.trans hl.symm)
+  | poll =>
+    simp only [step] at h ⊢
+    split
+    · simp [pending]
+    · rename_i hr
+      simp only [hr] at h
+      exact absurd rfl h
+  | setFriends l => simp [pending, step]
+  | setBlocked l => simp [pending, step]
+  | scanAll disk => simp [pending, step]
+  | cycle => exact absurd rfl hop
+  | share d disk =>
+    have := C08_change_requests_cycle s hwf (.share d disk) hop (Or.inr (by
+      intro he; apply h
+      simp only [announcedInputs, entitlementInputs, Prod.mk.injEq] at he ⊢
+      refine ⟨?_, ?_, he.2.2.1, he.2.2.2⟩ <;> (simp only [step]; split <;> rfl)))
+    simp [pending, this]
+  | unshare p =>
+    have := C08_change_requests_cycle s hwf (.unshare p) hop (Or.inr (by
+      intro he; apply h
+      simp only [announcedInputs, entitlementInputs, Prod.mk.injEq] at he ⊢
+      refine ⟨?_, ?_, he.2.2.1, he.2.2.2⟩ <;> (simp only [step]; split <;> rfl)))
+    simp [pending, this]
+  | setMode p m =>
+    have := C08_change_requests_cycle s hwf (.setMode p m) hop (Or.inr (by
+      intro he; apply h
+      simp only [announcedInputs, entitlementInputs, Prod.mk.injEq] at he ⊢
+      refine ⟨?_, ?_, he.2.2.1, he.2.2.2⟩ <;> (simp only [step]; split <;> rfl)))
+    simp [pending, this]
+  | reload es disk =>
+    have := C08_change_requests_cycle s hwf (.reload es disk) hop (Or.inr (by
+      intro he; apply h
+      simp only [announcedInputs, entitlementInputs, Prod.mk.injEq] at he ⊢
+      refine ⟨?_, ?_, he.2.2.1, he.2.2.2⟩ <;> (simp only [step]; split <;> rfl)))
+    simp [pending, this]
+  | phrases l => exact absurd rfl h
+  | search u q => exact absurd rfl h
+  | sharesReq u => exact absurd rfl h
+  | dirReq u req => exact absurd rfl h
+  | queueReq u p => exact absurd rfl h
+  | xferReq u p => exact absurd rfl h
+  | meth k m => exact absurd rfl h
+  | userAbort k => exact absurd rfl h
+  | userQueue k => exact absurd rfl h
+
+/-- **No change of the settings is lost** (flip-backs apart): after an op that changed anything
+entitlement depends on, whatever follows that is neither a cycle nor a flip-back — requests, state
+changes, further changes, polls — the user manager's next poll leaves the shares-changed flag set;
+the cycle this requests reconciles every upload against the configuration of that moment
+(`C08_reconcile`). -/
+theorem C08_change_seen_by_next_cycle_partial (s : S) (hwf : WF s) (op : Op) (mid : List Op)
+    (hop : op ≠ .cycle) (hmid : ∀ o ∈ mid, o ≠ .cycle) (hnf : noFlipBack s (op :: mid) = true)
+    (h : entitlementInputs (step s op).1 ≠ entitlementInputs s) :
+    (run (step s op).1 (mid ++ [.poll])).sharesChanged = true := by
+  simp only [noFlipBack, Bool.and_eq_true, Bool.not_eq_true'] at hnf
+  have h0 := C08_settings_change_pending_partial s hwf op hop hnf.1 (Or.inr h)
+  have key : ∀ (mid : List Op) (s' : S), (∀ o ∈ mid, o ≠ .cycle) → pending s' = true →
+      noFlipBack s' mid = true → (run s' (mid ++ [.poll])).sharesChanged = true := by
+    intro mid
+    induction mid with
+    | nil => intro s' _ h0 _; exact (C08_poll_announces s').2.2.2.2.2 h0
+    | cons o mid ih =>
+      intro s' hmid h0 hn
+      simp only [noFlipBack, Bool.and_eq_true, Bool.not_eq_true'] at hn
+      simp only [run, List.cons_append, List.foldl_cons]
+      exact ih _ (fun o' ho' => hmid o' (by simp [ho']))
+        (C08_pending_persists s' o (hmid o (by simp)) hn.1 h0) hn.2
+  exact key mid _ hmid h0 hnf.2
+
+/-- **`load_from_settings()` makes the shared directories exactly those of the settings**: the
+configured directories are the entries, every indexed item belongs to a listed directory (what the
+dropped directories held is not indexed any more — nobody is `Entitled` to it, the cycle the reload
+requests aborts its unfinished uploads with "File not shared", `C08_reconcile`), and the cycle is
+requested unless the settings name no directory and none was shared. -/
+theorem C08_reload_exact (s : S) (hwf : WF s) (es : List DirInfo) (disk : List (Shares.File Comp))
+    (hn : (es.map (·.path)).Nodup) :
+    (step s (.reload es disk)).1.cfg.dirs = es ∧
+    (step s (.reload es disk)).1.sh.paths = es.map (·.path) ∧
+    (∀ it ∈ (step s (.reload es disk)).1.sh.items, it.sd ∈ es.map (·.path)) ∧
+    ((es ≠ [] ∨ ∃ p ∈ s.sh.paths, p ∉ es.map (·.path)) → (step s (.reload es disk)).1.sharesChanged = true) := by
+  have hi := inv_reload s.sh (es.map (·.path)) disk hwf.sh hn
+  simp only [step, hn, not_true_eq_false, if_false]
+  refine ⟨trivial, hi.2, ?_, ?_⟩
+  · intro it hit
+    have := hi.1.owner it hit
+    rw [hi.2] at this
+    exact this
+  · rintro (h | ⟨p, hp, hnp⟩)
+    · have : es.isEmpty = false := by cases es <;> simp at h ⊢
+      simp [this]
+    · have : (droppedBy s.sh (es.map (·.path))).isEmpty = false := by
+        have hm : p ∈ droppedBy s.sh (es.map (·.path)) := by
+          simp only [droppedBy, List.mem_filter, Bool.not_eq_eq_eq_not, Bool.not_true]
+          exact ⟨hp, by simpa using hnp⟩
+        cases hd : droppedBy s.sh (es.map (·.path)) with
+        | nil => rw [hd] at hm; simp at hm
+        | cons a l => rfl
+      simp [this]
 
 /-! ## Uploads aborted on the user's request stay aborted -/
 
@@ -357,9 +615,60 @@ theorem C08_directory_listing_counterexample :
     [([64, 64, 0, 92, 2], [⟨[[0]], [[2]], [1, 4, 0]⟩])], by decide, _, List.mem_singleton.2 rfl, _,
     List.mem_singleton.2 rfl, by decide⟩
 
+/-! ## Known finding: a polled setting changed and changed back between two polls -/
+
+namespace Ex
+/-- the friends-only folder `m` and the public folder `n` are shared, nobody is a friend; user 1 is
+made a friend, asks for the friends-only file `m/aB.b` (admitted: he is entitled at that moment) … -/
+def excursion : List Op := [.share dm disk, .share dn disk, .cycle, .mutFriends [1], .queueReq 1 pm]
+end Ex
+
+/-- **… and is taken off the friends list again before the user manager's next poll**: the op changes
+what entitlement depends on and leaves nothing pending (the negation of the full statement
+`C08_settings_change_pending`, on exactly the class `flipsBack` excludes); the poll finds the list as
+it last saw it, no cycle is requested, and the upload stays QUEUED for a user the file is not shared
+with (witness replayed on the real code: known finding `C08-settings-flip-within-poll-interval`). -/
+theorem C08_flip_between_polls_counterexample :
+    ∃ (s : S) (op : Op), WF s ∧ op ≠ .cycle ∧ flipsBack s op = true ∧
+      entitlementInputs (step s op).1 ≠ entitlementInputs s ∧ pending (step s op).1 = false ∧
+      (run (step s op).1 [.poll, .cycle]).xs = [⟨1, Ex.pm, .queued, none⟩] ∧
+      findShared (run (step s op).1 [.poll, .cycle]).cfg (run (step s op).1 [.poll, .cycle]).sh 1 Ex.pm = none :=
+  ⟨run Ex.s0 Ex.excursion, .mutFriends [], wf_run _ _ (wf_init _ rfl rfl), fun h => Op.noConfusion h, by decide,
+    by decide, by decide, by decide, by decide⟩
+
 /-! ## Non-vacuity -/
 
 namespace Ex
+/-- every state the examples reach is well-formed (hypothesis `WF` of the change theorems) -/
+example : WF (run s0 setup) := wf_run _ _ (wf_init _ rfl rfl)
+/-- **a directory dropped from the settings while the other one stays as it is** (`[dm]` reloaded,
+`n` is gone): the reload requests a cycle, the cycle aborts the upload out of the dropped directory -/
+example : (run s0 (setup ++ [.reload [dm] disk])).sharesChanged = true := by decide
+example : (run s0 (setup ++ [.reload [dm] disk, .cycle])).xs =
+    [⟨1, pm, .queued, none⟩, ⟨2, pn, .aborted, some .notShared⟩] := by decide
+/-- every directory dropped: announced as well (after `fixes/C08-reload-announces-removed.patch`) -/
+example : (run s0 (setup ++ [.reload [] disk])).sharesChanged = true := by decide
+example : (run s0 (setup ++ [.reload [] disk, .cycle])).xs =
+    [⟨1, pm, .aborted, some .notShared⟩, ⟨2, pn, .aborted, some .notShared⟩] := by decide
+/-- `m` becomes a named-users directory for users 1 and 2, then user 1 is taken off its users list
+(in the settings, in place or not) and the settings are reloaded: aborted, and queued again when he
+is put back -/
+example : (run s0 (setup ++ [.reload [{ dm with mode := .users [1, 2] }, dn] disk, .cycle,
+      .reload [{ dm with mode := .users [2] }, dn] disk, .cycle])).xs =
+    [⟨1, pm, .aborted, some .notShared⟩, ⟨2, pn, .queued, none⟩] := by decide
+example : (run s0 (setup ++ [.reload [{ dm with mode := .users [1, 2] }, dn] disk, .cycle,
+      .reload [{ dm with mode := .users [2] }, dn] disk, .cycle,
+      .reload [{ dm with mode := .users [1, 2] }, dn] disk, .cycle])).xs =
+    [⟨1, pm, .queued, none⟩, ⟨2, pn, .queued, none⟩] := by decide
+/-- user 1 is taken off `settings.users.friends` (in place): pending but not announced until the
+user manager polls; the poll sets the flag, the cycle aborts his upload -/
+example : pending (run s0 (setup ++ [.mutFriends []])) = true ∧
+    (run s0 (setup ++ [.mutFriends []])).sharesChanged = false := by decide
+example : (run s0 (setup ++ [.mutFriends [], .cycle])).xs = (run s0 setup).xs := by decide
+example : (run s0 (setup ++ [.mutFriends [], .queueReq 2 pn, .poll])).sharesChanged = true := by decide
+example : (run s0 (setup ++ [.mutFriends [], .poll, .cycle])).xs =
+    [⟨1, pm, .aborted, some .notShared⟩, ⟨2, pn, .queued, none⟩] := by decide
+example : noFlipBack (run s0 setup) [.mutFriends [], .queueReq 2 pn, .mutBlocked [(2, 32)]] = true := by decide
 /-- admission: the friend's upload exists, the stranger's request for the locked file created
 nothing, his request for the public file did -/
 example : (run s0 setup).xs = [⟨1, pm, .queued, none⟩, ⟨2, pn, .queued, none⟩] := by decide
